@@ -61,6 +61,13 @@ func (e *ratEnv) leaf(s *Sym) *big.Rat {
 type e7Err struct{ msg string }
 
 func (e *ratEnv) eval(s *Sym) *big.Rat {
+	if e.leafOf != nil && s.Op != "const" {
+		if n := e.leafOf(s); n != "" {
+			if v, ok := e.named[n]; ok {
+				return v
+			}
+		}
+	}
 	switch s.Op {
 	case "const":
 		if s.Const == nil || s.IsNil {
